@@ -22,11 +22,15 @@ func YAML(c *Case, bigDesc int, params string) string {
 		if s.ContFail || s.ContSkip {
 			m = append(m, yaml.MapItem{Key: "continueOn", Value: map[string]bool{"failure": s.ContFail, "skipped": s.ContSkip}})
 		}
-		switch s.Precond {
-		case 1:
-			m = append(m, yaml.MapItem{Key: "preconditions", Value: []any{map[string]string{"condition": "1", "expected": "1"}}})
-		case 2:
-			m = append(m, yaml.MapItem{Key: "preconditions", Value: []any{map[string]string{"condition": "0", "expected": "1"}}})
+		if cs := s.Conds(); len(cs) > 0 {
+			var l []any
+			for _, ce := range cs {
+				l = append(l, map[string]string{"condition": ce[0], "expected": ce[1]})
+			}
+			m = append(m, yaml.MapItem{Key: "preconditions", Value: l})
+		}
+		if s.Output {
+			m = append(m, yaml.MapItem{Key: "output", Value: "VERIF_OUT_" + s.Name})
 		}
 		if s.RetryLimit >= 0 {
 			m = append(m, yaml.MapItem{Key: "retryPolicy", Value: map[string]int{"limit": s.RetryLimit, "intervalSec": 0}})
